@@ -18,6 +18,10 @@ CHECKS = {
    technique='deterministic simulation with fault injection: LD_PRELOAD disk shim kills the forked server before every file-changing libc call of the target request; recovered store compared with fault-free twin runs',
    text='For each seeded scenario every crash point of the target state-changing request is enumerated (k=1..N+1 intercepted pwrite/fdatasync/unlink/... calls, plus death between commit and response, plus a second kill during recovery, plus ENOSPC/EIO at sampled or all k). After each, a fresh engine must open the file, integrity and row-completeness checks must pass, the store must equal the twin state before or after the request (after, if the response had been reported; any item-prefix state for batches), every identity must see the twin view through the API, and the suffix requests must behave as in the twin. Complete over crash instants per scenario; scenarios are sampled.',
    note='Process death only (completed writes survive; no power loss / torn sectors). SQLite itself runs for real and is trusted. Trusted: the shim, the twin-run oracle (needs determinism, which each run re-checks), tmpfs as the disk.'),
+ 'C10': dict(level='exploration', ref='5/C10',
+   technique='deterministic simulation: baton-passing scheduler over real session threads with plan-chosen pre-emptions (sys.settrace line events) and a simulated lock; linearizability checked by sequential re-execution of the real engine',
+   text='2-4 real KmipSession.run() threads share one real engine; the plan fixes every context switch (0-5 explicit pre-emptions at traced source lines of engine.py/session.py/policy code plus tie-breaks at blocking points). The recorded request frames are replayed one at a time on a fresh engine+database in the order of lock acquisitions (other admissible orders are searched on mismatch); all responses (byte for byte) and the final store, including the owner column, must match. Deadlock and unanswered requests are flagged. Schedules are sampled, not enumerated.',
+   note='Pre-emption granularity is a PyKMIP source line (not inside SQLAlchemy/SQLite); engine.threading is replaced so that the engine\'s own RLock() call yields the simulated lock; SQLite busy timeout 0; constant clock inside a run.'),
 }
 ALL = ['C%02d' % i for i in range(1, 21)]
 
